@@ -301,6 +301,12 @@ static void do_op(vf_rng *r, int op, char *desc, size_t dcap, size_t *dl)
 		size_t nu = h_used(h);
 		VF_CHECK(nu <= sh[h].n && (!nu || !memcmp(h_data(h), sh[h].d, nu)), key(opn[op], "content-not-prefix"),
 		         "%s: content after reserve (%zu bytes) is not a prefix of the old %zu bytes", ctx, nu, sh[h].n);
+		/* a change of the content type discards the data: the bytes of one type are not elements of another,
+		 * and the outcome must not depend on whether the buffer happened to be shared */
+		if (!same) {
+			vf_count("state:reserve-changes-type", 1);
+			VF_CHECK(nu == 0, key(opn[op], "content-kept-across-type-change"), "%s: %zu bytes of the old type kept", ctx, nu);
+		}
 		if (same && len >= sh[h].n && !flagged) {
 			VF_CHECK(nu == sh[h].n, key(opn[op], "content-lost"), "%s: %zu of %zu bytes kept although they fit", ctx, nu, sh[h].n);
 		}
